@@ -28,6 +28,16 @@ def pOp (s : String) : Option Op :=
 
 def predict (cmd : List String) : Option String :=
   match cmd with
+  | ["lin.checkf", users, ops, post] => do
+    -- the observed final store content takes part in the search (linCheckFinal)
+    let s0 ← ApiCmd.pUsers users
+    let h ← if ops == "-" then pure [] else (ops.splitOn ",").mapM pOp
+    match linCheckFinal h s0 (fun s => ApiCmd.sUsers s == post) with
+    | some (_, s) => pure ("ok " ++ ApiCmd.sUsers s)
+    | none =>
+      match linCheck h s0 with
+      | some (_, s) => pure ("linearizable-but-not-to-the-observed-final-state e.g. " ++ ApiCmd.sUsers s)
+      | none => pure "not-linearizable"
   | ["lin.check", users, ops] => do
     let s0 ← ApiCmd.pUsers users
     let h ← if ops == "-" then pure [] else (ops.splitOn ",").mapM pOp
